@@ -78,6 +78,9 @@ func c13Gen(t *rapid.T) interface{} {
 		}
 	}
 	nv := lib.IntN(t, 1, 8, "nvalues")
+	if lib.IntN(t, 0, 9, "manyValues") == 0 {
+		nv = lib.IntN(t, 9, 14, "nvaluesMany") // keys key1 / key10 .. key13: one key is another key plus digits
+	}
 	for i := 0; i < nv; i++ {
 		n := lib.IntN(t, 1, 60, "ntokens")
 		if lib.IntN(t, 0, 4, "short") == 0 {
